@@ -439,6 +439,37 @@ func (w *World) NetworkPolicyOp() isaacoperation.NetworkPolicy {
 	return op
 }
 
+// Same-key multi-sign objects: node operations carrying two (three) node signs made with ONE key for different
+// node addresses (BaseNodeOperation only rejects duplicated node addresses): every sign must still be verified.
+func (w *World) NetworkPolicyOpSameKey() isaacoperation.NetworkPolicy {
+	op := isaacoperation.NewNetworkPolicy(isaacoperation.NewNetworkPolicyFact(w.Token(), w.Policy()))
+	k := w.Locals[0]
+	must(op.NodeSign(k.Privatekey(), w.NetworkID, k.Address()))
+	for i := 0; i < 1+w.R.Intn(2); i++ {
+		must(op.NodeSign(k.Privatekey(), w.NetworkID, w.Addr()))
+	}
+	return op
+}
+
+func (w *World) SuffrageExpelOperationSameKey() isaac.SuffrageExpelOperation {
+	start := w.HeightPos()
+	fact := isaac.NewSuffrageExpelFact(w.Locals[len(w.Locals)-1].Address(), start, start+base.Height(w.R.Range(0, 10)), w.Str("reason-"))
+	op := isaac.NewSuffrageExpelOperation(fact)
+	k := w.Locals[1]
+	must(op.NodeSign(w.Locals[0].Privatekey(), w.NetworkID, w.Locals[0].Address()))
+	must(op.NodeSign(k.Privatekey(), w.NetworkID, k.Address()))
+	must(op.NodeSign(k.Privatekey(), w.NetworkID, w.Addr()))
+	return op
+}
+
+func (w *World) SuffrageJoinSameKey() isaacoperation.SuffrageJoin {
+	n := w.NewLocal()
+	op := isaacoperation.NewSuffrageJoin(isaacoperation.NewSuffrageJoinFact(w.Token(), n.Address(), w.Height()))
+	must(op.NodeSign(n.Privatekey(), w.NetworkID, n.Address()))
+	must(op.NodeSign(n.Privatekey(), w.NetworkID, w.Addr()))
+	return op
+}
+
 func (w *World) GenesisNetworkPolicyOp() isaacoperation.GenesisNetworkPolicy {
 	fact := isaacoperation.NewGenesisNetworkPolicyFact(w.Policy())
 	op := isaacoperation.NewGenesisNetworkPolicy(fact)
